@@ -1,0 +1,58 @@
+//go:build verif
+
+// Package verifhook provides crash/fault injection points for an external verification harness.
+// This is the `verif` build tag version: driven by environment variables
+//
+//	VERIF_CRASH=<name>#<n>   kill the process (SIGKILL, no deferred code, no flush) at the n-th hit of point <name>
+//	VERIF_FAIL=<name>#<n>    make the n-th hit of point <name> return an error (injected write failure)
+//	VERIF_HOOKLOG=<file>     append the name of every point hit to <file> (to discover the points of a clean run)
+package verifhook
+
+import (
+	"errors"
+	"os"
+	"strconv"
+	"strings"
+	"syscall"
+)
+
+var (
+	hits        = map[string]int{}
+	crashAt     = parse(os.Getenv("VERIF_CRASH"))
+	failAt      = parse(os.Getenv("VERIF_FAIL"))
+	hookLog     = os.Getenv("VERIF_HOOKLOG")
+	ErrInjected = errors.New("verif: injected write failure")
+)
+
+type target struct {
+	name string
+	n    int
+}
+
+func parse(s string) target {
+	i := strings.LastIndexByte(s, '#')
+	if i < 0 {
+		return target{}
+	}
+	n, _ := strconv.Atoi(s[i+1:])
+	return target{s[:i], n}
+}
+
+// Point marks a place where the harness may stop the process or inject a failure.
+func Point(name string) error {
+	hits[name]++
+	if hookLog != "" {
+		if f, err := os.OpenFile(hookLog, os.O_APPEND|os.O_CREATE|os.O_WRONLY, 0o644); err == nil {
+			_, _ = f.WriteString(name + "\n")
+			_ = f.Close()
+		}
+	}
+	if crashAt.name == name && crashAt.n == hits[name] {
+		_ = syscall.Kill(os.Getpid(), syscall.SIGKILL)
+		select {} // not reached: SIGKILL cannot be handled
+	}
+	if failAt.name == name && failAt.n == hits[name] {
+		return ErrInjected
+	}
+	return nil
+}
